@@ -642,6 +642,12 @@ class XmlDocument(SubXmlBase):
             # one.
             if ctx.in_object is None and \
                            ctx.descriptor.body_style == BODY_STYLE_WRAPPED:
+                if self.validator is self.SOFT_VALIDATION:
+                    # the element of a message is not declared nillable, and
+                    # its mandatory arguments would go unchecked.
+                    raise ValidationError(None,
+                                         "The message element can't be nil.")
+
                 ctx.in_object = [None] * len(body_class._type_info)
 
         if logger.level == logging.DEBUG and message is self.REQUEST:
